@@ -5615,7 +5615,8 @@ class CodegenCtx:
                 result += f"({self._generate_code_for_int_expr(child, ctx, out_expr)})"
             return result
         elif isinstance(intexpr, CompareIntegerExpr):
-            return f"({self._generate_code_for_int_expr(intexpr.left, ctx, out_expr)}) {intexpr.op.value} ({self._generate_code_for_int_expr(intexpr.right, ctx, out_expr)})"
+            # the operands of a comparison have their own type; only the boolean result goes into the target
+            return f"({self._generate_code_for_int_expr(intexpr.left, ctx)}) {intexpr.op.value} ({self._generate_code_for_int_expr(intexpr.right, ctx)})"
         elif isinstance(intexpr, (DisjunctionIntegerExpr, ConjunctionIntegerExpr)):
             result = f"({self._generate_code_for_int_expr(intexpr.children[0], ctx, out_expr)})"
             for child in intexpr.children[1:]:
